@@ -53,7 +53,16 @@ func TestCrashImages(t *testing.T) {
 				os.RemoveAll(im.dir)
 			}
 		}()
-		ffldb.VerifSetCacheLimits(e.db, 1<<40, 1000*time.Hour)
+		// flush policy: "never" = only the forced flushes below make commits durable;
+		// "always" = every commit is written through to leveldb, so it is durable at once
+		always := rapid.IntRange(0, 2).Draw(t, "flushAlways") == 0
+		if always {
+			ffldb.VerifSetCacheLimits(e.db, 1<<40, 0)
+			recCrash.Count("policy:flush-every-commit", 1)
+		} else {
+			ffldb.VerifSetCacheLimits(e.db, 1<<40, 1000*time.Hour)
+		}
+		e.logf("maxfile=%d flushEveryCommit=%v", maxFile, always)
 		g := &opGen{e: e, maxDepth: 3}
 		g.noPrune = !withPrune
 		g.newBlock(t)
@@ -137,7 +146,11 @@ func TestCrashImages(t *testing.T) {
 				p.m.Commit()
 				committed++
 				states = append(states, e.m.Committed.Clone())
-				snap(fmt.Sprintf("after commit %d, cache not flushed", committed), "commit-unflushed", lastFlushed, committed)
+				if always {
+					lastFlushed = committed
+					pruneWindow = false
+				}
+				snap(fmt.Sprintf("after commit %d, cache not flushed", committed), map[bool]string{false: "commit-unflushed", true: "commit-flushed"}[always], lastFlushed, committed)
 				forceFlush := rapid.IntRange(0, 2).Draw(t, "flush") == 0 || (pruneWindow && known(sigPruneCrash))
 				if forceFlush {
 					e.logf("flush cache")
